@@ -23,6 +23,7 @@ WF_EST = ['clausere:#wf$', 'clausere:#small$', 'fn:intersect_all', 'fn:empty_ran
 # the version grammar of src/lib.rs, whole functions, under the assumed winnow contracts
 VGRAMMAR = ['mod:m_winnow', 'mod:m_vspec', 'fn:number', 'fn:version_core', 'fn:identifier', 'fn:build', 'fn:pre_release', 'fn:extras', 'fn:version', 'fn:Extras::values']
 WINNOW = 'A15: the contracts of the winnow 0.6 combinators the grammar uses (contracts/winnow_shim.rs, written from winnow\'s documentation and source; nothing of winnow is verified): sequence tuples, alt, opt, preceded, terminated, separated, map, try_map, take, context, literal, take_while, space0, digit1, eof, AsChar::is_alphanum; error payloads, Cut/Incomplete and the input position after a failed parse are not modelled'
+FMT = 'A16: the `write!` model of contracts/fmt_spec.rs: write!(f, "p0{}p1", a) appends p0 + disp(a) + p1 to the formatter when it returns Ok; `{}` prints a u64 as its decimal digits (dec_text: non-empty, all digits, reads back to the number), a String as its characters, a value of one of the crate\'s types as what its own Display impl (lifted, R9) is proved to write; R17: `for (i, x) in e.iter().enumerate()` is verified as a counter next to `for x in e.iter()`; a Vec holds at most usize::MAX elements'
 TEXT_SHELL = 'winnow text layer (tokenisation of a range / version text into operator + Partial values, `separated`, `alt`, `garbage`) is not under contract: the property is decided at AST level'
 STD = 'std axioms A1-A12 of DESIGN.md 2.4 (Box, cmp::max/min for a lawful Ord, Vec/String ordering, derived impls, Clone, iterator idioms, Hash feed) as listed in coverage.trusted_base'
 
@@ -63,6 +64,14 @@ PROPS = {
                      'reading of the statement: the loose spellings C12\'s quantifier names (leading zeros, v/V prefix followed by blanks, a prerelease without its hyphen, leading / trailing blanks) belong to the accepted language; everything else must be `major.minor.patch[-prerelease][+build]`'],
         not_decided=['FromStr for Version (one line, delegates to parse): compared with parse by the bounded stand-in', 'the error returned for a rejected text (C17)'],
         witness='c05',
+    ),
+    'C12': dict(
+        title='printing a version and parsing it back returns the same version',
+        obligations=VGRAMMAR + ['fn:Version::parse_str', 'mod:m_vprops', 'fn:Identifier::display_fmt', 'fn:Version::display_fmt', 'mod:m_c12'],
+        assumptions=[WINNOW, FMT, 'A13\': std `str::parse::<u64>`; R15/R16 as for C05',
+                     '`to_string()` is `Display::fmt` into an empty String (std); serde delegates to Display / parse (three-line impls, exercised by the stand-in with the serde feature)'],
+        not_decided=['the serde / JSON half (bounded stand-in only)', 'the printed text must itself be within MAX_LENGTH: lemma_c12_round_trip carries that hypothesis; it fails for one class of inputs, see known finding'],
+        witness='c12',
     ),
     'C06': dict(
         title='no panic / overflow / non-termination in the core',
@@ -124,9 +133,9 @@ PROPS = {
     ),
     'C16': dict(
         title='Version::diff',
-        obligations=ORDER + ['fn:Version::diff', 'fn:lemma_diff_symmetric', 'fn:lemma_diff_none_iff_equal', 'fn:lemma_diff_prerelease', 'fn:lemma_c16_build_irrelevant', 'fn:lemma_c16_most_significant'],
-        assumptions=[STD, 'diff_spec is node-semver 7.6.2 functions/diff.js transcribed by hand (7.7.0 changed prerelease -> release results such as 1.1.0-pre vs 1.2.1; the crate ports 7.6.2, the property names the documented special cases); lemma_c16_most_significant restates it independently of the branch order'],
-        not_decided=['VersionDiff Display'],
+        obligations=ORDER + ['fn:VersionDiff::display_fmt', 'fn:Version::diff', 'fn:lemma_diff_symmetric', 'fn:lemma_diff_none_iff_equal', 'fn:lemma_diff_prerelease', 'fn:lemma_c16_build_irrelevant', 'fn:lemma_c16_most_significant'],
+        assumptions=[STD, FMT + ' (the seven release type names are proved to be what Display for VersionDiff writes)', 'diff_spec is node-semver 7.6.2 functions/diff.js transcribed by hand (7.7.0 changed prerelease -> release results such as 1.1.0-pre vs 1.2.1; the crate ports 7.6.2, the property names the documented special cases); lemma_c16_most_significant restates it independently of the branch order'],
+        not_decided=[],
         witness='c16',
     ),
     'C18': dict(
@@ -139,7 +148,6 @@ PROPS = {
 }
 
 NOT_APPLICABLE = {
-    'C12': 'print -> parse round trip of Version is core::fmt composed with the winnow parser; neither is within reach of Verus (no str/fmt reasoning) or Kani (format! + winnow)',
     'C13': 'print -> parse round trip of Range: same text layer (Display shapes vs primitive parser); only "Display for BoundSet never hits unreachable! on a well formed interval" is decided, under C06',
     'C17': 'error input()/offset()/location() depend on where winnow leaves the input on failure, on str slicing and a pointer difference; error kinds on which combinator fails first; none expressible as a contract on code either tool can read',
 }
